@@ -102,11 +102,24 @@ PostCaps(r) ==
      ELSE phase' = "idle" /\ chan' = "dead" /\ UNCHANGED caps
   /\ UNCHANGED <<conn, cliAuth, srvAuth, cur, ncalls, wire>>
 
+\* Mechanisms whose exchange takes several round trips.  DIGEST-MD5 (RFC 2831 over RFC 5804 2.1):
+\*   C: AUTHENTICATE "DIGEST-MD5"      S: challenge                      (Auth, reaction OK = "challenge sent")
+\*   C: response                       S: rspauth challenge              (AuthRespond)
+\*   C: ""                             S: OK                             (AuthFinish)
+\* the server may answer NO / BYE / nothing / garbage at each of the three steps; only the OK that ends
+\* the third step authenticates the connection.
+MultiStep == {"DIGEST-MD5"}
+
 Auth(r) ==
   /\ phase = "auth"
   /\ LET m == ChooseMech(caps.sasl, cur.pref) IN
      IF m = ""
      THEN /\ Fail("no mechanism") /\ UNCHANGED <<wire, cliAuth, srvAuth, chan>>
+     ELSE IF m \in MultiStep /\ r = "OK"
+     THEN /\ wire' = Append(wire, Write("AUTHENTICATE", m))
+          /\ hist' = Ev(Ev(hist, <<"write", chan, "AUTHENTICATE", m>>), <<"srv", "auth", r>>)
+          /\ phase' = "auth2"
+          /\ UNCHANGED <<cliAuth, srvAuth, chan>>
      ELSE /\ wire' = Append(wire, Write("AUTHENTICATE", m))
           /\ hist' = Ev(Ev(Ev(hist, <<"write", chan, "AUTHENTICATE", m>>), <<"srv", "auth", r>>),
                         <<"ret", IF r = "OK" THEN "ok" ELSE "fail", "auth">>)
@@ -114,6 +127,26 @@ Auth(r) ==
           /\ cliAuth' = (r = "OK")
           /\ srvAuth' = IF r = "OK" THEN srvAuth \cup {conn} ELSE srvAuth
           /\ chan' = IF r \in {"OK", "NO"} THEN chan ELSE "dead"
+  /\ UNCHANGED <<conn, caps, cur, ncalls>>
+
+AuthRespond(r) ==     \* the client answers the challenge; OK = the server accepts and sends its rspauth
+  /\ phase = "auth2"
+  /\ wire' = Append(wire, Write("CONT", ""))
+  /\ hist' = Ev(Ev(hist, <<"write", chan, "CONT", "">>), <<"srv", "auth2", r>>)
+             \o (IF r = "OK" THEN <<>> ELSE << <<"ret", "fail", "auth2">> >>)
+  /\ phase' = IF r = "OK" THEN "auth3" ELSE "idle"
+  /\ chan' = IF r \in {"OK", "NO"} THEN chan ELSE "dead"
+  /\ UNCHANGED <<conn, caps, cur, ncalls, cliAuth, srvAuth>>
+
+AuthFinish(r) ==      \* the client acknowledges with an empty response; the server ends the exchange
+  /\ phase = "auth3"
+  /\ wire' = Append(wire, Write("CONT", ""))
+  /\ hist' = Ev(Ev(Ev(hist, <<"write", chan, "CONT", "">>), <<"srv", "auth3", r>>),
+                <<"ret", IF r = "OK" THEN "ok" ELSE "fail", "auth3">>)
+  /\ phase' = "idle"
+  /\ cliAuth' = (r = "OK")
+  /\ srvAuth' = IF r = "OK" THEN srvAuth \cup {conn} ELSE srvAuth
+  /\ chan' = IF r \in {"OK", "NO"} THEN chan ELSE "dead"
   /\ UNCHANGED <<conn, caps, cur, ncalls>>
 
 \* ---- script operations and logout
@@ -136,6 +169,8 @@ Next ==
   \/ \E ok \in BOOLEAN : Handshake(ok)
   \/ \E r \in Reactions : PostCaps(r)
   \/ \E r \in Reactions : Auth(r)
+  \/ \E r \in Reactions : AuthRespond(r)
+  \/ \E r \in Reactions : AuthFinish(r)
   \/ \E v \in OpVerbs, r \in Reactions : CallOp(v, r)
 
 Spec == Init /\ [][Next]_vars
